@@ -247,11 +247,13 @@ The handle-level model adds what lies between a lookup and the patch: the per-st
 `As(..).Return` / `Cancel` on kept handles, `Reset` as "cancel every cached mocker", and the call-time behaviour of the
 `reflect.MakeFunc` stub. -/
 
-/-- **isolation for every history of the handle-level model** (lookups through any API path, kept handles, Apply,
+/-- **isolation for every history of the handle-level model** (lookups through any API path, mocker objects made with the
+    exported constructors and re-pointed at another method name with `Method(..)`, kept handles, Apply,
     Return, Returns, When, Cancel, re-arming after Cancel/Reset, Reset — in any order and number): a declared method whose
-    code no lookup of the history names is never patched; `N` is any list containing the names the lookups name. -/
+    code no lookup / constructor / `Method(..)` call of the history names is never patched; `N` is any list containing the
+    names those steps name (`stepName`, from the step's text alone). -/
 theorem handle_isolation (syms : List Str) (entries : List Entry) (e : Entry) (steps : List MethodH.Step) (N : List Str)
-    (hN : ∀ st ∈ steps, ∀ l, MethodH.stepLook st = some l → ∀ n, MethodH.lookName entries l = some n → n ∈ N)
+    (hN : ∀ st ∈ steps, ∀ n, MethodH.stepName entries st = some n → n ∈ N)
     (he : e.callSym ∉ N) :
     MethodH.behavOf syms (MethodH.run syms entries MethodH.HState.init 0 steps).1.patched e = none := by
   have h0 : C06HL.SInv syms N MethodH.HState.init := by
@@ -264,6 +266,13 @@ theorem handle_isolation (syms : List Str) (entries : List Entry) (e : Entry) (s
 theorem handle_call_original (syms : List Str) (s : MethodH.HState) (e : Entry)
     (h : MethodH.behavOf syms s.patched e = none) : MethodH.call syms s e = (s, .orig) := by
   simp [MethodH.call, h]
+
+/-- a method promoted from an embedded struct, called through the outer type's method set: when neither the
+    compiler-generated wrapper nor the embedded type's method is patched, the original runs -/
+theorem promoted_call_original (syms : List Str) (s : MethodH.HState) (e b : Entry)
+    (h : MethodH.behavOf syms s.patched e = none) (hb : MethodH.behavOf syms s.patched b = none) :
+    MethodH.callVia syms s e (some b) = (s, .orig) := by
+  simp [MethodH.callVia, MethodH.call, h, hb]
 
 /-- `h.Apply(cb k)` on a kept handle replaces exactly the code its mocker targets: the method named at lookup time
     now enters callback `k` — also when the handle was cancelled before (fix 50de3fa) or carried a When (fix 32dc3bc) -/
